@@ -294,6 +294,19 @@ struct C05 : Property
 		}
 	}
 	// do the two trees have a node in common?  (then inserting one somewhere inside the other may close a cycle)
+	// a documented copy (deep_copy, json_patch_apply with copy_from) hands the caller one reference on a tree of NEW nodes: if it
+	// shared a node with what existed before, the owner of the source would no longer hold its last reference
+	void must_be_fresh(struct json_object *res, const Graph &before, RunCtx &ctx, size_t oi, const char *what)
+	{
+		std::set<void *> sub;
+		collect(res, sub);
+		for (void *n : before.order)
+			if (sub.count(n))
+			{
+				ctx.fail("C05:copy-shares-node-with-source", "op %zu: the result of %s contains a node that already existed (the source keeps an owner the caller never created)", oi, what);
+				return;
+			}
+	}
 	bool intersects(struct json_object *a, struct json_object *b)
 	{
 		std::set<void *> sa, sb;
@@ -628,7 +641,11 @@ struct C05 : Property
 				{
 					size_t len = LIB(json_object_array_length(c));
 					size_t idx = (size_t)op.arg(2) % (len + 2), cnt = (size_t)op.arg(3) % 4;
-					bool valid = idx < len && idx + cnt <= len;
+					if (op.arg(3) == 7)
+						cnt = (size_t)0 - idx; // idx + cnt wraps to 0
+					else if (op.arg(3) == 6)
+						cnt = (size_t)-1 - (size_t)(op.arg(2) % 3);
+					bool valid = idx < len && cnt <= len - idx;
 					int rc = LIB(json_object_array_del_idx(c, idx, cnt));
 					if ((rc == 0) != valid)
 						ctx.fail("C05:delete-range-return-mismatch", "op %zu: del_idx(%zu,%zu) on length %zu returned %d", oi, idx, cnt, len, rc);
@@ -727,6 +744,7 @@ struct C05 : Property
 					if (rc == 0 && dst)
 					{
 						s.handles[(size_t)slot] = dst;
+						must_be_fresh(dst, before, ctx, oi, "json_object_deep_copy");
 						ctx.probe("deep_copy.ok");
 					}
 					else
@@ -777,7 +795,7 @@ struct C05 : Property
 			}
 			else if (op.kind == "patch")
 			{
-				static const char *patches[10] = {
+				static const char *patches[14] = {
 				    "[{\"op\":\"add\",\"path\":\"/k0\",\"value\":[1,{\"z\":2}]}]",
 				    "[{\"op\":\"remove\",\"path\":\"/k0\"}]",
 				    "[{\"op\":\"replace\",\"path\":\"/k1\",\"value\":\"r\"},{\"op\":\"remove\",\"path\":\"/k2\"}]",
@@ -787,7 +805,11 @@ struct C05 : Property
 				    "[{\"op\":\"move\",\"from\":\"/0\",\"path\":\"/1\"},{\"op\":\"test\",\"path\":\"/0\",\"value\":7}]",
 				    "[{\"op\":\"add\",\"path\":\"\",\"value\":{\"fresh\":[true]}}]",
 				    "[{\"op\":\"remove\",\"path\":\"\"}]",
-				    "[{\"op\":\"move\",\"from\":\"/k1\",\"path\":\"/k1\"},{\"op\":\"copy\",\"from\":\"/k0\",\"path\":\"/k0/x\"}]"};
+				    "[{\"op\":\"move\",\"from\":\"/k1\",\"path\":\"/k1\"},{\"op\":\"copy\",\"from\":\"/k0\",\"path\":\"/k0/x\"}]",
+				    "[]",
+				    "[{\"op\":\"copy\",\"from\":\"/k0\",\"path\":\"/k1/zz/q\"}]",
+				    "[{\"op\":\"copy\",\"from\":\"/0\",\"path\":\"/9\"},{\"op\":\"move\",\"from\":\"/1\",\"path\":\"/k0\"}]",
+				    "[{\"op\":\"test\",\"path\":\"\",\"value\":0},{\"op\":\"add\",\"path\":\"/k7\",\"value\":null}]"};
 				struct json_object *base = H(op.arg(0));
 				bool copy_from = op.arg(3) & 1;
 				int slot = free_slot(op.arg(1) < 0 ? 2 : op.arg(1));
@@ -797,7 +819,7 @@ struct C05 : Property
 					skipped = true; // move/copy inside a document that shares nodes between branches can close a cycle: JSON patch is defined on trees
 				else
 				{
-					std::string t = std::string(patches[op.arg(2) % 10]) + std::string(1, '\0');
+					std::string t = std::string(patches[op.arg(2) % 14]) + std::string(1, '\0');
 					disarm_faults(); // the patch document itself is built without faults
 					struct json_tokener *tok = new_tok(32, 0);
 					ExactBuf b(t);
@@ -813,7 +835,10 @@ struct C05 : Property
 						struct json_object *res = nullptr;
 						rc = LIB(json_patch_apply(base, patch, &res, &perr));
 						if (res)
+						{
 							s.handles[(size_t)slot] = res; // must be released by the caller even when patching failed
+							must_be_fresh(res, before, ctx, oi, "json_patch_apply(copy_from)");
+						}
 						ctx.probe("patch.copy_from");
 					}
 					else
